@@ -7,11 +7,19 @@
    marked object untouched and frees exactly the unmarked ones, and -- since the collector
    follows every stored reference (/repo ad6fcd1) -- collect keeps every object reachable
    through any stored reference, unchanged, UNCONDITIONALLY.
-   What they do not carry: that VM::collect's root list is complete (interpreter locals,
-   native argument vectors) -- that half is explored by the schedule tie only.
+   Root list (Model/GcRoots.v): the VM state is modelled field by field (the list of fields of
+   `struct VM` that can hold a Value/GcRef is regenerated from the source and must agree with the
+   model's table); VM::collect's root list is proved to be exactly the set of places through
+   which the program can still reach an object (register windows of all frames, running
+   functions and closures, both global views, both upvalue lists), hence C03_vm_collect_safe.
+   What they do not carry: references held only in Rust locals of the interpreter between two
+   instructions' stores (the four safepoints were analysed by hand, their list is regenerated
+   from the source), and that dead registers above every window are never read again -- those
+   are explored by the schedule tie only.
    The last section documents the defect the repair removed, stated about the old edge
    function `edges_old` (it is not a statement about the current code). *)
-From Aelys Require Import Base.Tactics Model.Gc Proofs.GcProofs Proofs.GcWitness.
+From Aelys Require Import Base.Tactics Extracted.GcRootFields Model.Gc Model.GcRoots
+  Proofs.GcProofs Proofs.GcWitness Proofs.GcRootsProofs Proofs.GcRootsWitness.
 Local Open Scope N_scope.
 
 (* HEADLINE.  For every heap and every root list: collect terminates, every object reachable
@@ -23,6 +31,36 @@ Theorem C03_collect_safe : forall h roots,
     /\ (forall i o, reachable_spec h roots i -> get h i = Some o -> get h' i = Some o)
     /\ (forall i, ~ reachable_spec h roots i -> get h' i = None).
 Proof. exact collect_safe_lemma. Qed.
+
+(* HEADLINE 2 (root model).  For every VM state and heap: the collection as the VM runs it keeps
+   every object the program can reach -- through a register inside the window of ANY active frame,
+   the function or closure of ANY active frame, a global (by name or by index), an open or current
+   upvalue, and from there along any stored reference -- unchanged; frees exactly the rest; leaves
+   no layout snapshot behind; and every such place still refers to the object it referred to. *)
+Theorem C03_vm_collect_safe : forall s h,
+  exists s' h', vm_collect s h = Some (s', h')
+    /\ (forall i o, program_reachable s h i -> get h i = Some o -> get h' i = Some o)
+    /\ (forall i, ~ program_reachable s h i -> get h' i = None)
+    /\ v_globals_cache s' = []
+    /\ (forall p, holds_ref s' p <-> holds_ref s p)
+    /\ (forall p o, holds_ref s' p -> get h p = Some o -> get h' p = Some o).
+Proof. exact vm_collect_safe_lemma. Qed.
+
+(* VM::collect's root list = the specification's places, in both directions *)
+Theorem C03_collect_roots_exact : forall s p, In p (collect_roots s) <-> holds_ref s p.
+Proof. intros s p. split; [exact (collect_roots_sound s p)|exact (collect_roots_complete s p)]. Qed.
+
+(* the field table regenerated from the Rust source agrees with the model: every field of
+   `struct VM` whose type can contain a Value/GcRef has a disposition, collect reads exactly the
+   fields the model marks and clears exactly the field the model clears; same for CallFrame;
+   the safepoints are the four that were analysed; Heap::mark has one arm per object kind *)
+Theorem C03_reference_fields_agree :
+  fields_agree vm_reference_fields collect_uses collect_clears = true
+  /\ frame_fields_agree frame_reference_fields collect_frame_uses = true
+  /\ pair_list_eqb safepoint_sites analysed_safepoints = true
+  /\ str_list_eqb object_kinds model_kinds = true /\ str_list_eqb mark_arms model_kinds = true
+  /\ mark_has_wildcard_arm = false.
+Proof. exact reference_fields_agree_lemma. Qed.
 
 (* the collector follows exactly the references the specification counts *)
 Theorem C03_edges_code_is_spec : forall o, edges_code o = edges_spec o.
@@ -118,6 +156,19 @@ Example C03_witness_now_survives :
   exists h', collect witness_heap witness_roots = Some h' /\ get h' 134 = Some witness_str
              /\ free h' = [].
 Proof. exact witness_now_survives. Qed.
+
+(* HISTORICAL (root list before /repo af27ef7: running closures were not roots): VM state and heap
+   dumped from corpus/C03/running_closure_unrooted.aelys -- the closure a frame is executing is
+   program-reachable and the old root list let it be freed; the current one keeps it *)
+Theorem C03_old_roots_running_closure_refuted :
+  exists s h i o h',
+    program_reachable s h i /\ get h i = Some o
+    /\ collect h (collect_roots_old s) = Some h' /\ get h' i = None.
+Proof. exact old_roots_running_closure_refuted_lemma. Qed.
+
+Example C03_running_closure_now_survives :
+  exists s' h', vm_collect kf3_vm kf3_heap = Some (s', h') /\ get h' 145 = Some kf3_closure.
+Proof. exact kf3_now_survives. Qed.
 
 (* the old edge function was never unsound in the other direction and differed from the
    specification only at function objects *)
